@@ -104,7 +104,7 @@ class Env:
         k = o[0]
         if k == "var":
             if len(o) > 2:
-                shape = tuple(o[2])
+                shape = None if o[2] is None else tuple(o[2])  # None = unknown rank
             return self.spox.argument(self.spox.Tensor(np.dtype(self.dtypes[o[1]]), shape))
         if k == "int":
             return o[1]
@@ -991,6 +991,234 @@ def shape_value_case(env: Env, opname, da, db, sa, sb):
     return out
 
 
+
+# --------------------------------------------------------------------------- symbolic static shapes
+# Operators on Vars whose STATIC shapes contain named dimensions (equal names, different names, a name
+# against a constant, against 1), anonymous dimensions, or are of unknown rank. Such operands are legal:
+# the expression must build (no exception at construction) and, on runtime inputs that conform to the
+# static shapes and do broadcast, compute what numpy computes.
+SYM_FIXED = [(["N"], ["M"]), (["N"], [4]), ([2, "K"], [3]), (["N"], ["N"]), (["N"], [1]), ([1], ["N"]), ([None], [3]),
+             ([None], [None]), (None, [3]), ([3], None), (None, None), (["N", "M"], ["M"]), (["N", 1], [1, "M"]),
+             ([], ["N"]), (["N"], []), ([2, "N"], ["N"]), (["B", "N", 3], [3]), (["N"], ["M", "N"]), (["N", "M"], ["M", "N"]),
+             ([None, "N"], ["M", None]), ([2, "K"], ["K"]), (["N"], [2, 3]), (None, ["N"]), (["N", 3], [None, 1])]
+SYM_DIMS = [1, 2, 3, "N", "M", "K", None]
+RDUNDER = {"add": "__radd__", "sub": "__rsub__", "mul": "__rmul__", "truediv": "__rtruediv__", "floordiv": "__rfloordiv__",
+           "and_": "__rand__", "or_": "__ror__", "xor": "__rxor__"}
+
+
+def sym_runtime_shapes(np, sa, sb, limit=3, pick=None):
+    """Runtime shape pairs that conform to the static shapes (same name = same size within the pair of
+    operands, anonymous dims independent, unknown rank = any rank <= 2) and that numpy broadcasts."""
+    import itertools
+
+    consts = sorted({d for s_ in (sa, sb) if s_ is not None for d in s_ if isinstance(d, int)} | {1, 2, 3})
+    names = sorted({d for s_ in (sa, sb) if s_ is not None for d in s_ if isinstance(d, str)})
+    free = [(k, i) for k, s_ in enumerate((sa, sb)) if s_ is not None for i, d in enumerate(s_) if d is None]
+    unk = [k for k, s_ in enumerate((sa, sb)) if s_ is None]
+    ranks = [(), (1,), (3,), (2, 1), (1, 3)]
+    out = []
+    for nv in itertools.product(consts, repeat=len(names)):
+        env_ = dict(zip(names, nv))
+        for fv in itertools.product([1, 2, 3], repeat=len(free)):
+            fenv = dict(zip(free, fv))
+            for uv in itertools.product(ranks, repeat=len(unk)):
+                uenv = dict(zip(unk, uv))
+                conc = []
+                for k, s_ in enumerate((sa, sb)):
+                    if s_ is None:
+                        conc.append(uenv[k])
+                    else:
+                        conc.append(tuple(d if isinstance(d, int) else (env_[d] if isinstance(d, str) else fenv[(k, i)])
+                                          for i, d in enumerate(s_)))
+                try:
+                    np.broadcast_shapes(*conc)
+                except ValueError:
+                    continue
+                out.append(tuple(conc))
+    if not out:
+        return []
+    # prefer variety: a pair where the operands differ in some axis (one side 1), and one where they agree
+    out.sort(key=lambda c: (c[0] == c[1], -sum(c[0]) - sum(c[1])))
+    if pick is not None and len(out) > limit:
+        rest = out[1:-1]
+        return [out[0], out[-1]] + [rest[pick % len(rest)]] if rest else [out[0], out[-1]]
+    return out[:limit]
+
+
+def symbolic_case(env: Env, c):
+    """One operator application on Vars with symbolic static shapes. -> [(key, what)]"""
+    np = env.np
+    opname, sa, sb = c["op"], c["sa"], c.get("sb")
+    settings = c.get("settings", [True, True])
+    form = c.get("form", "op")
+    unary = opname in UNARY
+    dta = np.dtype(env.dtypes[c["da"]])
+    kb = c.get("kb", "var")  # the right operand: a Var, or a Python scalar
+    dtb = np.dtype(env.dtypes[c["db"]]) if (not unary and kb == "var") else None
+    tup = lambda s_: None if s_ is None else tuple(s_)  # noqa: E731
+    if not unary and kb != "var":
+        sb = []
+
+    def operand(name, dt, s_, runnable):
+        """A Var of the given static type. `build` refuses model inputs of unknown rank, so for running
+        the model an operand of unknown rank is a runtime Reshape of a flat input (static rank unknown)."""
+        if s_ is not None or not runnable:
+            v = env.spox.argument(env.spox.Tensor(dt, tup(s_)))
+            return v, {name: v}
+        flat = env.spox.argument(env.spox.Tensor(dt, (f"n_{name}",)))
+        shp = env.spox.argument(env.spox.Tensor(np.int64, (f"r_{name}",)))
+        return env.op.reshape(flat, shp), {name: flat, f"{name}_shape": shp}
+
+    def show(dt, s_):
+        return f"Var[{dt.name}, shape={'unknown rank' if s_ is None else tuple(s_)}]"
+
+    b = c.get("scalar")
+    expr = (f"{SYM[opname]}{show(dta, sa)}" if unary else
+            f"{show(dta, sa)} {SYM[opname]} {show(dtb, sb) if kb == 'var' else repr(b)}")
+    if form == "reflected":
+        expr += f"  [as right.{RDUNDER[opname]}(left)]"
+    elif form == "swapped":
+        expr = f"{b!r} {SYM[opname]} {show(dta, sa)}"
+    runtime = sym_runtime_shapes(np, sa, [] if unary else sb, pick=c.get("pick"))
+    if not runtime:
+        return []  # statically incompatible for all conforming values: the statement makes no demand
+
+    def construct(a, b):
+        with env.fut.operator_overloading(env.op, type_promotion=settings[0], constant_promotion=settings[1]):
+            if unary:
+                r = PYOP[opname](a)
+            elif form == "reflected":
+                r = getattr(b, RDUNDER[opname])(a)
+            elif form == "swapped":
+                r = PYOP[opname](b, a)
+            else:
+                r = PYOP[opname](a, b)
+        if not isinstance(r, env.Var):
+            raise TypeError(f"operator returned {type(r).__name__}")
+        return r
+
+    try:
+        with warnings.catch_warnings():
+            warnings.simplefilter("ignore")
+            for runnable in ((False, True) if (sa is None or (sb is None and not unary)) else (True,)):
+                a, feeds_vars = operand("a", dta, sa, runnable)
+                if not unary and kb == "var":
+                    b, fv = operand("b", dtb, sb, runnable)
+                    feeds_vars.update(fv)
+                r = construct(a, b)
+    except Exception as e:  # noqa: BLE001
+        ra, rb = runtime[0]
+        return [(f"{opname}:symbolic-shapes:refused:{env.err_name(e)}",
+                 f"{expr} raises {env.err_name(e)} ({str(e)[:120]}) at construction although the static shapes are legal and "
+                 f"runtime values of shapes {ra} and {rb} conform to them and broadcast")]
+    claimed = None
+    try:
+        claimed = r.unwrap_tensor().shape
+    except Exception:  # noqa: BLE001
+        pass
+    with warnings.catch_warnings():
+        warnings.simplefilter("ignore")
+        if claimed is None:  # `build` refuses results of unknown rank too: hand out the flattened result and its shape
+            outs = {"r": env.op.reshape(r, env.op.const(np.array([-1], dtype=np.int64))), "r_shape": env.op.shape(r)}
+        else:
+            outs = {"r": r}
+        model = env.spox.build(feeds_vars, outs)
+    sess = env.ort.InferenceSession(model.SerializeToString(), env.so, providers=["CPUExecutionProvider"])
+    out_names = [o.name for o in model.graph.output]
+    vals = {"i": [-7, 2, -1, 3, 1, -2, 7, 5], "u": [7, 2, 1, 3, 5, 4, 9, 6], "f": [-7, 2, -1.5, 3, 0.5, -2, 7, 2.5], "b": [True, False, True, True, False]}
+    out = []
+    for k, (ra, rb) in enumerate(runtime):
+        def fill(dt, shape, off):
+            n = int(np.prod(shape)) if shape else 1
+            return np.resize(np.roll(np.array(vals[dt.kind], dtype=dt), -(off + k)), n).reshape(shape)
+        def feed(name, x):
+            if f"{name}_shape" in feeds_vars:
+                return {name: x.reshape(-1), f"{name}_shape": np.array(x.shape, dtype=np.int64)}
+            return {name: x}
+        xa = fill(dta, ra, 0)
+        feeds = feed("a", xa)
+        if unary:
+            na, nb = xa, None
+        elif kb == "var":
+            xb = fill(dtb, rb, 3)
+            feeds.update(feed("b", xb))
+            na, nb = xa, xb
+        else:
+            na, nb = xa, b
+        if form == "swapped":
+            na, nb = nb, na
+        kind, want = numpy_expect(np, opname, na, nb)
+        if kind != "ok":
+            continue
+        want = np.asarray(want)
+        try:
+            res_ = dict(zip(out_names, sess.run(None, feeds)))
+            got = np.asarray(res_["r"])
+            if "r_shape" in res_:
+                got = got.reshape(tuple(int(v) for v in res_["r_shape"]))
+        except Exception as e:  # noqa: BLE001
+            out.append((f"{opname}:symbolic-shapes:runtime-refuses", f"{expr}: onnxruntime refuses inputs of shapes {ra}, {rb}: {str(e)[:160]}"))
+            break
+        if not settings[0]:
+            # promotion off: "results keep the operands' element type"; values are numpy's where numpy keeps it too
+            if got.dtype != dta:
+                out.append(("no-promotion:result-dtype-changed", f"{expr} with type promotion off: result {got.dtype}"))
+                break
+        elif got.dtype != want.dtype:
+            out.append((f"{opname}:result-dtype", f"{expr}: spox gives {got.dtype}, numpy {want.dtype}"))
+            break
+        if got.shape != want.shape:
+            out.append((f"{opname}:result-shape", f"{expr} on runtime shapes {ra}, {rb}: shape {got.shape}, numpy {want.shape}"))
+            break
+        if got.dtype != want.dtype:
+            continue
+        if claimed is not None and (len(claimed) != len(want.shape) or any(isinstance(d, int) and d != w for d, w in zip(claimed, want.shape))):
+            out.append((f"{opname}:symbolic-shapes:claimed-shape-contradicted",
+                        f"{expr}: the result is typed with shape {claimed}, but on conforming inputs of shapes {ra}, {rb} it has shape {want.shape}"))
+            break
+        if opname == "floordiv" and want.dtype.kind == "f":
+            continue
+        ok = agree(np, got, want, exact=opname in EXACT_OPS)
+        if not ok.all():
+            idx = tuple(np.argwhere(~ok)[0])
+            out.append((f"{opname}:{'float' if want.dtype.kind == 'f' else 'int'}:wrong-value",
+                        f"{expr} at a={xa.tolist()}, b={nb.tolist() if hasattr(nb, 'tolist') else nb}: spox {got[idx]!r}, numpy {want[idx]!r} at {idx}"))
+            break
+    return out
+
+
+def gen_symbolic(rng, n_random, ND):
+    """Cases: every overloaded operator x fixed + seeded shape pairs x dtypes x settings x call form."""
+    cases = []
+
+    def rshape():
+        if rng.random() < 0.12:
+            return None
+        return [rng.choice(SYM_DIMS) for _ in range(rng.choice([0, 1, 1, 2, 2, 3]))]
+
+    pairs = list(SYM_FIXED) + [(rshape(), rshape()) for _ in range(n_random)]
+    num = list(range(11))
+    for k, (sa, sb) in enumerate(pairs):
+        for opname in BIN:
+            st = rng.choice(SETTINGS[1:])
+            da = rng.choice(num)
+            db = rng.choice(num) if st[0] else da
+            form = "reflected" if rng.random() < 0.25 else "op"
+            cases.append({"op": opname, "da": da, "db": db, "sa": sa, "sb": sb, "settings": st, "form": form, "pick": k})
+        for opname in (LOGIC if k < len(SYM_FIXED) else [LOGIC[k % 3]]):
+            cases.append({"op": opname, "da": 11, "db": 11, "sa": sa, "sb": sb, "settings": rng.choice(SETTINGS[1:]),
+                          "form": "reflected" if k % 4 == 3 else "op", "pick": k})
+        # a Python scalar on either side of a Var with a symbolic shape
+        opname = BIN[k % 5]
+        d = rng.choice(num)
+        sc = rng.choice([2, 3, -1] if d not in (4, 5, 6, 7) else [2, 3]) if rng.random() < 0.6 or d < 8 else 2.5
+        cases.append({"op": opname, "da": d, "sa": sa, "kb": "scalar", "scalar": sc, "settings": [isinstance(sc, float) or rng.random() < 0.7, True],
+                      "form": "swapped" if k % 2 else "op", "pick": k})
+        cases.append({"op": "neg", "da": rng.choice([0, 1, 2, 3, 8, 9, 10]), "sa": sa, "settings": rng.choice(SETTINGS[1:]), "pick": k})
+        cases.append({"op": "not_", "da": 11, "sa": sb, "settings": rng.choice(SETTINGS[1:]), "pick": k})
+    return cases
+
+
 def describe(env, opname, oa, ob):
     def d(o):
         if o is None:
@@ -1060,6 +1288,7 @@ CHECKS = {
     "outside": lambda env, c: outside_case(env, c["op"], c["a"], c.get("b")),
     "history": lambda env, c: history_value_case(env, c["hist"])[0],
     "scoped": lambda env, c: scoped_case(env, c["prog"])[1],
+    "symbolic": lambda env, c: symbolic_case(env, c),
     "shape": lambda env, c: shape_value_case(env, c["op"], c["da"], c["db"], tuple(c["sa"]), tuple(c["sb"])),
 }
 
@@ -1323,6 +1552,53 @@ def run(ck: core.Check):
         for key, what in res[1]:
             ck.failure(key, what, case)
     ck.cov["shape_cases"] = {"dispatch": len(sh_cases), "values": len(sv_cases), "dispatch_mismatches": sh_mism}
+
+
+    # ------------------------------------------------------------------ symbolic static shapes (named / anonymous dims, unknown rank)
+    sym_cases = gen_symbolic(rng, ck.pick(36, 400), ND)
+    sym_stats = {"cases": len(sym_cases), "with_runtime_inputs": 0, "dispatch_mismatches": 0}
+    # (a) the dispatch decision must not depend on the static shapes (the model is shape-blind)
+    sym_disp = [c for c in sym_cases if c.get("kb", "var") == "var" and c.get("form", "op") == "op"
+                and sym_runtime_shapes(np, c["sa"], [] if c["op"] in UNARY else c["sb"], limit=1)]
+    try:
+        sym_reqs = [{"settings": c["settings"], "op": c["op"], "a": ["var", c["da"]],
+                     "b": ["var", c["db"]] if c["op"] not in UNARY else ["other"]} for c in sym_disp]
+        sym_model = ck.driver().ask_many("C17", sym_reqs) if model is not None else None
+    except Exception as e:  # noqa: BLE001
+        ck.broken("correspondence", "C17 driver (symbolic shapes)", str(e))
+        sym_model = None
+    for k, c in enumerate(sym_disp):
+        try:
+            with warnings.catch_warnings():
+                warnings.simplefilter("ignore")
+                res, _, _ = env.dispatch(c["settings"], c["op"], ["var", c["da"], c["sa"]],
+                                         ["var", c["db"], c["sb"]] if c["op"] not in UNARY else ["other"])
+        except Exception as e:  # noqa: BLE001
+            res = {"unobservable": f"{type(e).__name__}: {e}"}
+        if sym_model is not None and "unobservable" not in res and sym_model[k] != res:
+            sym_stats["dispatch_mismatches"] += 1
+            if sym_stats["dispatch_mismatches"] <= 3:
+                ck.broken("correspondence", "C17 dispatcher model-vs-implementation (symbolic static shapes)",
+                          f"settings={c['settings']} Var[{env.dtypes[c['da']]}{c['sa']}] {SYM[c['op']]} "
+                          f"{'Var[' + env.dtypes[c['db']] + str(c['sb']) + ']' if c['op'] not in UNARY else ''}: model (shape-blind) {sym_model[k]} real {res}")
+    env.restore_dispatcher(saved)
+    # (b) model-free: builds, and onnxruntime on conforming runtime inputs that broadcast = numpy
+    for c, res in zip(sym_cases, forked_batch(lambda c_: symbolic_case(env, c_), sym_cases, size=48)):
+        ck.count(("symbolic", c["op"], repr(c["sa"]), repr(c.get("sb")), c.get("form", "op")))
+        case = dict(c, check="symbolic")
+        if sym_runtime_shapes(np, c["sa"], [] if (c["op"] in UNARY or c.get("kb") == "scalar") else c["sb"], limit=1):
+            sym_stats["with_runtime_inputs"] += 1
+        if res[0] != "ok":
+            if res[0] == "exc" and res[1].split(":")[0] in ("AttributeError", "ImportError", "ModuleNotFoundError", "NameError"):
+                ck.broken("correspondence", "C17 symbolic-shape oracle could not observe spox", res[1])
+            else:
+                ck.failure(f"{c['op']}:runtime-crash" if res[0] == "crash" else f"{c['op']}:oracle-exception", f"{case}: {res[1]}", case)
+            continue
+        for key, what in res[1]:
+            ck.failure(key, what, case)
+    ck.cov["symbolic_shape_cases"] = sym_stats
+    if sym_stats["with_runtime_inputs"] < len(sym_cases) // 3:
+        ck.broken("generator", "C17 symbolic shapes starved", str(sym_stats))
 
     # ------------------------------------------------------------------ expression histories (hidden state)
     n_hist_v, n_hist_c = ck.pick(150, 1500), ck.pick(250, 2500)
